@@ -1,17 +1,65 @@
 (** The fees attached at election are exact ceilings. *)
-From Coq Require Import ZArith Lia List String.
+From Coq Require Import String ZArith Lia List Bool.
 From Paloma Require Import Base.Dec Base.DecProofs Cons.Fees.
 From Paloma Require Gen.C14.
 Import ListNotations.
 Open Scope Z_scope.
 
-(** Tie to the source: the three assignments of calculateFeesForEstimate, as the translator read them. *)
+(** Tie to the source: the three assignments of calculateFeesForEstimate, the body of mulCeilUint64
+    and the submission-time validation, as the translator read them. *)
 Example fee_formula_is :
   Gen.C14.fee_formula =
-  [ "fees.RelayerFee = multiplicators.RelayerFee.MulInt.Ceil.TruncateInt.Uint64 @ math.NewIntFromUint64(estimate)";
-    "fees.CommunityFee = multiplicators.CommunityFee.MulInt.Ceil.TruncateInt.Uint64 @ math.NewIntFromUint64(fees.RelayerFee)";
-    "fees.SecurityFee = multiplicators.SecurityFee.MulInt.Ceil.TruncateInt.Uint64 @ math.NewIntFromUint64(fees.RelayerFee)" ]%string.
+  [ "fees.RelayerFee = mulCeilUint64(multiplicators.RelayerFee, estimate)";
+    "fees.CommunityFee = mulCeilUint64(multiplicators.CommunityFee, fees.RelayerFee)";
+    "fees.SecurityFee = mulCeilUint64(multiplicators.SecurityFee, fees.RelayerFee)" ]%string.
 Proof. reflexivity. Qed.
+Example mul_ceil_shape_is :
+  Gen.C14.mul_ceil_shape =
+  [ "if d.IsNil() || d.IsNegative() => error";
+    "product := new(big.Int).Mul(d.BigInt(), new(big.Int).SetUint64(n))";
+    "quo, rem := new(big.Int).QuoRem(product, decPrecisionDivisor, new(big.Int))";
+    "if rem.Sign() > 0 => quo.Add(quo, big.NewInt(1))";
+    "if !quo.IsUint64() => error";
+    "return quo.Uint64(), nil" ]%string.
+Proof. reflexivity. Qed.
+Example dec_precision_divisor_is :
+  Gen.C14.dec_precision_divisor_expr = "new(big.Int).Exp(big.NewInt(10), big.NewInt(math.LegacyPrecision), nil)"%string.
+Proof. reflexivity. Qed.
+Example validate_multiplicator_is :
+  Gen.C14.validate_multiplicator_rejects = ["m.IsNil() || !m.IsPositive()"; "m.GT(maxRelayerFeeMultiplicator)"]%string
+  /\ max_multiplier = 1000000 * prec.
+Proof. split; reflexivity. Qed.
+
+(** the helper is the same ceiling as the SDK chain MulInt.Ceil.TruncateInt *)
+Lemma mul_ceil_u64_as_ceil d n :
+  mul_ceil_u64 d n = if d <? 0 then None else to_uint64 (truncate_int (ceil (d * n))).
+Proof.
+  unfold mul_ceil_u64, ceil. destruct (d <? 0); auto.
+  cbv zeta. rewrite truncate_int_of_int. reflexivity.
+Qed.
+
+Lemma mul_ceil_u64_spec d n r :
+  mul_ceil_u64 d n = Some r -> 0 <= d /\ is_ceiling (d * n) r /\ 0 <= r < 2 ^ 64.
+Proof.
+  rewrite mul_ceil_u64_as_ceil. destruct (d <? 0) eqn:N; try discriminate.
+  apply Z.ltb_ge in N. intros E. apply to_uint64_some in E as [-> H].
+  split; auto. split; [apply ceil_truncate | exact H].
+Qed.
+
+Lemma mul_ceil_u64_total d n :
+  0 <= d -> 0 <= n -> d * n <= (2 ^ 64 - 1) * prec -> exists r, mul_ceil_u64 d n = Some r.
+Proof.
+  intros Hd Hn Hb. rewrite mul_ceil_u64_as_ceil.
+  assert (d <? 0 = false) as -> by (apply Z.ltb_ge; lia).
+  pose proof prec_pos as Hp.
+  pose proof (ceil_truncate (d * n)) as Hc. unfold is_ceiling in Hc.
+  set (c := truncate_int (ceil (d * n))) in *.
+  assert (0 <= c) by nia. assert (c <= 2 ^ 64 - 1) by nia.
+  unfold to_uint64.
+  assert ((0 <=? c) && (c <? 18446744073709551616) = true) as ->.
+  { apply andb_true_iff; split; [apply Z.leb_le | apply Z.ltb_lt]; lia. }
+  eauto.
+Qed.
 
 Lemma fees_for_ceilings mult cf sf gas f :
   fees_for mult cf sf gas = Some f ->
@@ -21,18 +69,17 @@ Lemma fees_for_ceilings mult cf sf gas f :
   0 <= fee_relayer f < 2 ^ 64 /\ 0 <= fee_community f < 2 ^ 64 /\ 0 <= fee_security f < 2 ^ 64.
 Proof.
   unfold fees_for.
-  destruct (mul_int_ceil_u64 mult gas) as [r|] eqn:E1; try discriminate.
-  destruct (mul_int_ceil_u64 cf r) as [c|] eqn:E2; try discriminate.
-  destruct (mul_int_ceil_u64 sf r) as [s|] eqn:E3; try discriminate.
+  destruct (mul_ceil_u64 mult gas) as [r|] eqn:E1; try discriminate.
+  destruct (mul_ceil_u64 cf r) as [c|] eqn:E2; try discriminate.
+  destruct (mul_ceil_u64 sf r) as [s|] eqn:E3; try discriminate.
   intros E; inversion E; subst; cbn [fee_relayer fee_community fee_security].
-  apply mul_int_ceil_u64_spec in E1 as [A1 B1].
-  apply mul_int_ceil_u64_spec in E2 as [A2 B2].
-  apply mul_int_ceil_u64_spec in E3 as [A3 B3].
+  apply mul_ceil_u64_spec in E1 as (_ & A1 & B1).
+  apply mul_ceil_u64_spec in E2 as (_ & A2 & B2).
+  apply mul_ceil_u64_spec in E3 as (_ & A3 & B3).
   exact (conj A1 (conj A2 (conj A3 (conj B1 (conj B2 B3))))).
 Qed.
 
-(** ... and they exist (no panic) for every sane setting: non-negative multipliers whose products
-    stay below 2^64. *)
+(** an error is returned only for a negative factor or a ceiling that does not fit 64 bits *)
 Lemma fees_for_total mult cf sf gas :
   0 <= mult -> 0 <= cf -> 0 <= sf -> 0 <= gas < 2 ^ 64 ->
   mult * gas <= (2 ^ 64 - 1) * prec ->
@@ -40,11 +87,25 @@ Lemma fees_for_total mult cf sf gas :
   exists f, fees_for mult cf sf gas = Some f.
 Proof.
   intros Hm Hc Hs Hg B1 B2 B3. unfold fees_for.
-  destruct (mul_int_ceil_u64_total mult gas Hm Hg B1) as (r & E1). rewrite E1.
-  apply mul_int_ceil_u64_spec in E1 as [_ Hr].
-  destruct (mul_int_ceil_u64_total cf r Hc Hr ltac:(nia)) as (c & E2). rewrite E2.
-  destruct (mul_int_ceil_u64_total sf r Hs Hr ltac:(nia)) as (s & E3). rewrite E3.
+  destruct (mul_ceil_u64_total mult gas Hm ltac:(lia) B1) as (r & E1). rewrite E1.
+  apply mul_ceil_u64_spec in E1 as (_ & _ & Hr).
+  destruct (mul_ceil_u64_total cf r Hc ltac:(lia) ltac:(nia)) as (c & E2). rewrite E2.
+  destruct (mul_ceil_u64_total sf r Hs ltac:(lia) ltac:(nia)) as (s & E3). rewrite E3.
   eauto.
+Qed.
+
+(** a multiplicator accepted on submission can always be applied to estimates up to 2^64 / 10^6
+    (about 1.8 * 10^13 gas), with fund rates of at most 100 % *)
+Lemma valid_multiplier_fees_defined mult cf sf gas :
+  valid_multiplier mult = true -> 0 <= cf <= prec -> 0 <= sf <= prec ->
+  0 <= gas -> gas * 1000000 <= 2 ^ 64 - 1 ->
+  exists f, fees_for mult cf sf gas = Some f.
+Proof.
+  unfold valid_multiplier. intros V Hc Hs Hg Hb. apply andb_true_iff in V as [V1 V2].
+  apply Z.ltb_lt in V1. apply Z.leb_le in V2.
+  assert (max_multiplier = 1000000 * prec) by reflexivity.
+  pose proof prec_pos.
+  apply fees_for_total; try lia; nia.
 Qed.
 
 (** non-vacuity: multiplier 1.1, community 3 %, security 1 %, 21000 gas *)
@@ -56,3 +117,12 @@ Example fees_example_round_up :
   fees_for 1100000000000000001 30000000000000000 10000000000000000 21000
   = Some {| fee_relayer := 23101; fee_community := 694; fee_security := 232 |}.
 Proof. reflexivity. Qed.
+Example fees_example_negative_rejected : fees_for (-1) 1 1 21000 = None.
+Proof. reflexivity. Qed.
+Example fees_example_overflow_rejected :
+  fees_for 2478466894628014227 1 1 7822711776622766954 = None.
+Proof. reflexivity. Qed.
+Example valid_multiplier_examples :
+  valid_multiplier 0 = false /\ valid_multiplier (-5) = false /\ valid_multiplier 1 = true /\
+  valid_multiplier (1000000 * prec) = true /\ valid_multiplier (1000000 * prec + 1) = false.
+Proof. repeat split. Qed.
